@@ -388,8 +388,46 @@ revalidate:
 		RefIndex:  refIndex,
 		Freshness: freshness,
 	}
-	return r.vrh.HandleValidationResponse(ctx, req, resp, err)
+	return r.finishValidation(ctx, req, resp, err)
 }
+
+// finishValidation hands the validation result to the handler and, after a
+// 304, writes the freshened response back to the store (RFC 9111 §4.3.4) so
+// that later requests are served from it instead of validating again.
+func (r *transport) finishValidation(
+	ctx internal.RevalidationContext,
+	req *http.Request,
+	resp *http.Response,
+	err error,
+) (*http.Response, error) {
+	notModified := err == nil && resp != nil &&
+		req.Method == http.MethodGet && resp.StatusCode == http.StatusNotModified
+	var ageFrom304 bool
+	if notModified {
+		_, ageFrom304 = resp.Header["Age"]
+	}
+	out, outErr := r.vrh.HandleValidationResponse(ctx, req, resp, err)
+	if notModified && outErr == nil && out == ctx.Stored.Data {
+		h := out.Header
+		// The cache's own fields are not part of the stored response, and the
+		// age of the freshened response restarts from the 304.
+		status, legacy := h[internal.CacheStatusHeader], h[internal.FromCacheHeader]
+		delete(h, internal.CacheStatusHeader)
+		delete(h, internal.FromCacheHeader)
+		if !ageFrom304 {
+			delete(h, "Age")
+		}
+		_ = r.rs.StoreResponse(req, out, ctx.URLKey, ctx.Refs, ctx.Start, ctx.End, ctx.RefIndex)
+		if status != nil {
+			h[internal.CacheStatusHeader] = status
+		}
+		if legacy != nil {
+			h[internal.FromCacheHeader] = legacy
+		}
+	}
+	return out, outErr
+}
+
 
 func (r *transport) serveFromCache(
 	req *http.Request,
